@@ -59,9 +59,10 @@ Notes:
   from numpy import abs, asarray, newaxis as nwxs, zeros_like
   # cast as arrays of the same dimension
   x = asarray(x)
-  if x.dtype.kind != 'c': x = x.astype(float) # (integers wrap; short floats overflow)
+  _short = lambda t: t.kind in 'iub' or (t.kind == 'f' and t.itemsize < 8)
+  if _short(x.dtype): x = x.astype(float) # (integers wrap; short floats overflow)
   xp = x if xp is None else asarray(xp)
-  if xp.dtype.kind != 'c': xp = xp.astype(float)
+  if _short(xp.dtype): xp = xp.astype(float)
   xsize = max(len(x.shape), len(xp.shape), dmin)
   while len(x.shape) < xsize: x = x[nwxs]
   while len(xp.shape) < xsize: xp = xp[nwxs]
